@@ -754,9 +754,7 @@ def call_method(eng, o, name, args, kwargs, node):
                 return eng.get_field(o, "groups")[args[0]]
             raise EngineError("match method %s" % name)
         if k == "path":
-            if name == "is_absolute":
-                return eng.get_field(o, "absolute")
-            raise EngineError("pathlib method %s is not modelled" % name)
+            return path_method(eng, o, name, args, kwargs, node)
         if k == "set":
             if name == "add":
                 eng.set_field(o, "items", tuple(eng.get_field(o, "items")) + (args[0],))
@@ -1886,12 +1884,40 @@ def path_abs_fn():
     return V.uf("pathlib_is_absolute", V.seq_sort("char"), z3.BoolSort())
 
 
+ROOTS = ("/", "//")
+
+
+def _is_root(x):
+    return V.Or(V.eq(x, "/"), V.eq(x, "//"))
+
+
+def new_path(eng, parts, text=None, parsed=False):
+    """heap cell of kind `path`: PurePosixPath represented by its `parts` (assumed contract of pathlib, DESIGN 6.3):
+    is_absolute() <=> the first part is a root ('/' or '//'); roots occur only at index 0; no '' and no '.' parts"""
+    from .contract import ForAll
+
+    if not isinstance(parts, SSeq):
+        parts = V.to_seq(list(parts), elem="str", py="tuple") if len(parts) else SSeq(z3.Empty(V.seq_sort("str")), "str", "tuple")
+    isabs = V.And(V.L(parts) >= 1, _is_root(V.nth(parts, 0)))
+    if parsed:
+        eng.register_forall(ForAll(lambda k: V.And(V.Not(V.eq(V.nth(parts, k), "")), V.Not(V.eq(V.nth(parts, k), ".")), V.Implies(k >= 1, V.Not(_is_root(V.nth(parts, k))))), guard=lambda k: V.And(k >= 0, k < V.L(parts)), over=parts))
+    return eng.alloc("path", parts=parts, absolute=isabs, text=text)
+
+
+class StarSeq:
+    """*xs with xs a list of unknown length (only understood by pathlib.Path(*xs))"""
+
+    def __init__(self, seq):
+        self.seq = seq
+
+
 @ext("pathlib.Path", "pathlib.PurePath", "pathlib.PurePosixPath")
 def _pathlib_path(eng, args, kwargs, node):
-    """pathlib.Path(s): assumed contract of pathlib's parser (DESIGN 6.3): `parts` is a function of the string,
-    contains no '' and no '.' component, is_absolute() is a function of the string"""
     if eng.abstract and not getattr(eng.contract, "model_pathlib", False):
         return eng.opaque_call("pathlib.Path", None, args, kwargs, node)
+    if len(args) == 1 and isinstance(args[0], StarSeq):
+        # Path(*parts) for a list of valid parts (roots only first, no '' / '.'): the parts are kept as they are
+        return new_path(eng, args[0].seq.with_py("tuple"))
     if len(args) != 1:
         raise EngineError("pathlib.Path with %d arguments" % len(args))
     s0 = args[0]
@@ -1901,66 +1927,54 @@ def _pathlib_path(eng, args, kwargs, node):
         raise RaiseExc("TypeError", (), node, implicit=True)
     ss = V.to_seq(s0)
     parts = SSeq(path_parts_fn()(ss.t), "str", "tuple")
-    isabs = SBool(path_abs_fn()(ss.t))
-    from .contract import ForAll
-
-    dot = V.to_seq(".")
-    eng.register_forall(ForAll(lambda k: V.And(V.Not(V.eq(V.nth(parts, k), "")), V.Not(V.eq(V.nth(parts, k), "."))), guard=lambda k: V.And(k >= 0, k < V.L(parts)), over=parts))
-    return eng.alloc("path", parts=parts, absolute=isabs, text=s0)
-
-
-def _is_alpha(ch):
-    return V.Or(V.And(ch >= 65, ch <= 90), V.And(ch >= 97, ch <= 122))
+    p = new_path(eng, parts, text=s0, parsed=True)
+    eng.pc.append(V._zb(V.Iff(SBool(path_abs_fn()(ss.t)), eng.get_field(p, "absolute"))))
+    # a string starting with '/' parses to an absolute path and vice versa (POSIX)
+    eng.pc.append(V._zb(V.Iff(eng.get_field(p, "absolute"), V.And(V.L(ss) >= 1, V.nth(ss, 0) == 47))))
+    return p
 
 
-UNIT_PATTERN = r"^([0-9]+)([bkmg]?)$"
+@ext("pathlib.Path.cwd")
+def _pathlib_cwd(eng, args, kwargs, node):
+    if "cwd" not in eng.ghost:
+        parts = eng.fresh_seq("cwd.parts", "str", "tuple")
+        p = new_path(eng, parts, parsed=True)
+        eng.assume(eng.get_field(p, "absolute"))
+        eng.assume(V.eq(V.nth(parts, 0), "/"))  # os.getcwd() is an absolute POSIX path with the single-slash root
+        from .contract import ForAll
+
+        eng.register_forall(ForAll(lambda k: V.Not(V.eq(V.nth(parts, k), "..")), guard=lambda k: V.And(k >= 0, k < V.L(parts)), over=parts))
+        eng.pc.append(V.uf("no_dotdot", V.seq_sort("str"), z3.BoolSort())(parts.t))  # os.getcwd() is a resolved path
+        eng.ghost["cwd"] = p
+    return eng.ghost["cwd"]
 
 
-def match_unit_pattern(eng, s0, node):
-    """re.compile(r"^([0-9]+)([bkmg]?)$", re.IGNORECASE).match(s): either None or a match whose groups D, U satisfy
-    s == D ++ U ++ T, D one or more ASCII digits, U empty or one of bkmgBKMG, T empty or a single newline
-    (`$` also matches before a trailing newline) - assumed contract of `re` for this literal pattern"""
-    from .contract import ForAll
-
-    ss = V.to_seq(s0)
-    if not eng.branch(eng.fresh_bool("unit_pattern_matches")):
-        eng.ghost["unit_match"] = None
-        return None
-    D = eng.fresh_seq("digits", "char", "str")
-    U = eng.fresh_seq("unit", "char", "str")
-    T = eng.fresh_seq("tail", "char", "str")
-    eng.assume(V.eq(ss, V.cat(D, U, T)))
-    eng.assume(V.L(D) >= 1)
-    eng.register_forall(ForAll(lambda k: V.And(V.nth(D, k) >= 48, V.nth(D, k) <= 57), guard=lambda k: V.And(k >= 0, k < V.L(D)), over=D))
-    units = [ord(ch) for ch in "bkmgBKMG"]
-    eng.assume(V.Or(V.L(U) == 0, V.And(V.L(U) == 1, V.Or(*[V.nth(U, 0) == u for u in units]))))
-    eng.assume(V.Or(V.L(T) == 0, V.And(V.L(T) == 1, V.nth(T, 0) == 10)))
-    eng.pc.append(V.uf("is_decimal", V.seq_sort("char"), z3.BoolSort())(D.t))
-    eng.ghost["unit_match"] = (D, U, T)
-    return eng.alloc("match", groups=(ss, D, U))
-
-
-@ext("re.match")
-def _re_match(eng, args, kwargs, node):
-    """re.match for the literal patterns used by the FUCs (assumed: `re` matches as documented)"""
-    pat, s0 = args[0], args[1]
-    if pat == "^[a-zA-Z]:":
-        if not is_sym(s0):
-            import re as _re
-
-            return _re.match(pat, s0) is not None
-        ss = V.to_seq(s0)
-        return V.And(V.L(ss) >= 2, _is_alpha(V.nth(ss, 0)), V.nth(ss, 1) == 58)
-    raise EngineError("re.match with pattern %r is not modelled" % (pat,))
-
-
-@ext("os.path.isabs", "posixpath.isabs")
-def _isabs(eng, args, kwargs, node):
-    s0 = args[0]
-    if not is_sym(s0):
-        return s0.startswith("/")
-    ss = V.to_seq(s0)
-    return V.And(V.L(ss) >= 1, V.nth(ss, 0) == 47)
+def path_method(eng, o, name, args, kwargs, node):
+    parts = eng.get_field(o, "parts")
+    if name == "is_absolute":
+        return eng.get_field(o, "absolute")
+    if name == "joinpath":
+        x = args[0]
+        if is_str(x):
+            x = _pathlib_path(eng, [x], {}, node)
+        if not (isinstance(x, Ref) and eng.kind(x) == "path"):
+            raise EngineError("joinpath argument")
+        xp = eng.get_field(x, "parts")
+        if eng.branch(eng.get_field(x, "absolute")):
+            return x
+        return new_path(eng, SSeq(z3.Concat(parts.t, xp.t), "str", "tuple"))
+    if name == "relative_to":
+        other = args[0]
+        if not (isinstance(other, Ref) and eng.kind(other) == "path"):
+            raise EngineError("relative_to argument")
+        op = eng.get_field(other, "parts")
+        # PurePath.relative_to: ValueError unless `other` is a (lexical) prefix of self
+        eng.safety(SBool(z3.PrefixOf(op.t, parts.t)), "ValueError", "relative_to-prefix", node)
+        return new_path(eng, V.slice_(parts, V.L(op), None).with_py("tuple"))
+    if name == "as_posix":
+        f = V.uf("path_as_posix", V.seq_sort("str"), V.seq_sort("char"))
+        return SSeq(f(parts.t), "char", "str")
+    raise EngineError("pathlib method %s is not modelled" % name)
 
 
 @ext("io.BytesIO", "BytesIO")
